@@ -287,6 +287,26 @@ def check_varint(case):
             except Exception as e:
                 raise unexpected('bytes/prefix', e)
             raise Violation('bytes/prefix-parsed', 'prefix %d of %d-byte string parsed' % (c, v))
+    if case.get('materialise'):
+        # ONE object of exactly this many bytes (32 MiB: the largest single read the library's reader allows itself): byte string
+        # and a transaction whose only input script has that length round-trip like any other
+        data = (bytes(range(256)) * (v // 256 + 1))[:v]
+        eb = E + data
+        if libx.call('bytes/ser-big', BytesSerializer.serialize, data)[1] != eb or libx.call('bytes/deser-big', BytesSerializer.deserialize, eb)[1] != data:
+            raise Violation('bytes/roundtrip-big', 'BytesSerializer round trip of %d bytes differs' % v)
+        et = W.i32(1) + b'\x01' + b'\x07' * 32 + W.u32(1) + eb + W.u32(5) + b'\x01' + W.i64(1) + b'\x01\x51' + W.u32(0)
+        del eb
+        o = libx.call('tx/deserialize-big', CTransaction.deserialize, et)[1]
+        if len(o.vin[0].scriptSig) != v or o.serialize() != et:
+            raise Violation('tx/roundtrip-big', 'transaction with a %d-byte input script does not round-trip' % v)
+        for c in (len(et) - 1, len(et) - 50, v // 2):
+            try:
+                CTransaction.deserialize(et[:c])
+            except SerializationTruncationError:
+                continue
+            except Exception as e:
+                raise unexpected('tx/prefix-big', e)
+            raise Violation('tx/prefix-parsed', 'prefix of a %d-byte transaction parsed' % len(et))
     return {'nt': v >= 0xfd, 'cls': ['varint'], 'evals': 2 + len(E)}
 
 
@@ -508,6 +528,9 @@ def t_many(ctx):
     for v in ctx.my([0, 1, 0xfc, 0xfd, 0xfe, 0xff, 0x100, 0xffff, 0x10000, 0x10001, 0xffffffff, 0x100000000, 0x100000001,
                      2 ** 63, 2 ** 64 - 1, 0x7fffffff, 0x80000000]):
         ctx.run({'kind': 'varint', 'v': v})
+    if ctx.shard == ctx.nshards - 1:
+        ctx.run({'kind': 'varint', 'v': 0x02000000, 'materialise': True})
+        ctx.exhaustive.append('one byte string / input script of exactly 0x02000000 bytes (32 MiB)')
     # script and witness-item lengths at and around the multiples of 65,536 (buffers read in chunks) and just past 0xffff
     for k_, L in enumerate([0xffff, 0x10000, 0x10001, 0x1ffff, 0x20000, 0x20001, 0x30000, 0x40000] + ([0x100000, 0x100000 - 1, 0x200000] if not ctx.quick else [])):
         if k_ % ctx.nshards == ctx.shard:
